@@ -7,6 +7,7 @@ From Webp Require Import Base.Res Arch.ArchLane16.
 Import ListNotations.
 Open Scope Z_scope.
 Ltac Zify.zify_post_hook ::= Z.div_mod_to_equations.
+Ltac forall_lia := repeat (apply Forall_cons; [lia|]); apply Forall_nil.
 
 (** * wrap16 is a ring homomorphism onto the signed 16-bit representatives *)
 
@@ -181,4 +182,259 @@ Proof.
   cbn [forallQ transpose] in *.
   destruct K0 as (? & ? & ? & ?), K1 as (? & ? & ? & ?), K2 as (? & ? & ? & ?), K3 as (? & ? & ? & ?).
   split; [|split; [|split]]; apply row_fits_box_8513; assumption.
+Qed.
+
+Lemma blk16_Forall (P : Z -> Prop) l c : blk16 l = Ok c -> Forall P l -> forallM P c.
+Proof.
+  unfold blk16. destruct (16 <=? Z.of_nat (length l)) eqn:E; [|discriminate].
+  intros H HP. injection H as <-. cbn [forallM forallQ].
+  rewrite Forall_forall in HP.
+  repeat split; apply HP, nth_In; lia.
+Qed.
+
+Lemma forallM_impl (P R : Z -> Prop) m : (forall x, P x -> R x) -> forallM P m -> forallM R m.
+Proof.
+  intros HPR. destruct m as [[[[[[a0 a1] a2] a3] [[[b0 b1] b2] b3]] [[[c0 c1] c2] c3]] [[[d0 d1] d2] d3]].
+  cbn [forallM forallQ]. intuition.
+Qed.
+
+Lemma blk16_cases l : (exists c, blk16 l = Ok c) \/ blk16 l = Panic.
+Proof. unfold blk16. destruct (16 <=? Z.of_nat (length l)); eauto. Qed.
+
+(** [lane16_idct_eq]: on every coefficient block inside the box |c| <= 2212
+    (any prediction bytes; slices of any length, short ones panic alike). *)
+Theorem lane16_idct_eq : forall coeffs pred,
+  in_range coeffs -> Forall byte pred ->
+  lane16_idct coeffs pred = transform_one coeffs pred.
+Proof.
+  intros coeffs pred Hr Hb.
+  destruct (blk16_cases coeffs) as [[c Hc]|Hc]; [|unfold lane16_idct, transform_one; rewrite Hc; reflexivity].
+  destruct (blk16_cases pred) as [[p Hp]|Hp]; [|unfold lane16_idct, transform_one; rewrite Hc, Hp; reflexivity].
+  assert (Hbox : forallM (in_box kIdctBox) c) by (apply (blk16_Forall _ _ _ Hc); exact Hr).
+  apply (lane16_idct_eq_fits coeffs pred c p Hc Hp).
+  - apply (forallM_impl (in_box kIdctBox) int16); [|exact Hbox].
+    unfold in_box, kIdctBox, int16. intros x Hx. lia.
+  - apply (blk16_Forall _ _ _ Hp Hb).
+  - apply idct_fits16_box, Hbox.
+Qed.
+
+(** The hypotheses of [lane16_idct_eq] are met by non-trivial blocks. *)
+Example lane16_idct_eq_applies :
+  in_range [2212; -2212; 700; -3; 0; 15; -2212; 2212; 1; 2; 3; 4; -100; 2000; -2000; 2212] /\
+  lane16_idct [2212; -2212; 700; -3; 0; 15; -2212; 2212; 1; 2; 3; 4; -100; 2000; -2000; 2212]
+              [0; 255; 128; 7; 200; 100; 50; 25; 12; 6; 3; 1; 255; 255; 0; 0]
+  = Ok [0; 191; 255; 0; 0; 80; 127; 255; 255; 107; 255; 0; 255; 255; 0; 255].
+Proof.
+  split; [unfold in_range, kIdctBox; forall_lia|vm_compute; reflexivity].
+Qed.
+
+(** The box is the widest symmetric one: at |c| = 2213 a final sum reaches
+    32768, the lane wraps to -32768 and the reconstructed sample flips from 255
+    to 0. *)
+Definition idct_block_2213 : list Z :=
+  [2213; -2213; -2213; 2213; -2213; 2213; 2213; -2213; -2213; 2213; 2213; -2213; 2213; -2213; -2213; 2213].
+
+Theorem idct_box_maximal :
+  Forall (fun c => - (kIdctBox + 1) <= c <= kIdctBox + 1) idct_block_2213 /\
+  lane16_idct idct_block_2213 (repeat 128 16) <> transform_one idct_block_2213 (repeat 128 16).
+Proof.
+  split; [unfold kIdctBox, idct_block_2213; forall_lia|vm_compute; discriminate].
+Qed.
+
+(** ** Which coefficients can reach the IDCT from a valid bitstream
+
+    The decoder stores [int16(level * dq)] (decode_mb.go, getCoeffs): [level] is a
+    DCT token value, at most 2^11 - 1 + 67 = 2114 in magnitude (DCT_CAT6: 11
+    extra bits on top of the base 67), and [dq] is an entry of the AC
+    dequantisation table selected by the quantiser index in the frame header.
+    The product is truncated to 16 bits, nothing clamps it. *)
+Definition kMaxLevel : Z := 2114.
+
+Definition reachable_coeff (ac_table : list Z) (v : Z) : Prop :=
+  exists level dq, - kMaxLevel <= level <= kMaxLevel /\ In dq ac_table /\ v = wrap16 (level * dq).
+
+(** A block of 16 AC-quantiser multiples, each reachable, on which the 16-bit
+    lanes wrap: level 100 at quantiser step 23 (index 19 of kAcTable). *)
+Definition idct_block_2300 : list Z := repeat 2300 16.
+
+Lemma lane16_idct_differs_witness :
+  lane16_idct idct_block_2300 (repeat 128 16) = Ok [0; 0; 255; 255; 0; 255; 0; 95; 255; 0; 255; 162; 255; 94; 162; 135] /\
+  transform_one idct_block_2300 (repeat 128 16) = Ok [255; 0; 255; 255; 0; 255; 0; 95; 255; 0; 255; 162; 255; 94; 162; 135].
+Proof. split; vm_compute; reflexivity. Qed.
+
+Theorem lane16_idct_differs_refuted : exists coeffs pred,
+  length coeffs = 16%nat /\ Forall int16 coeffs /\ Forall byte pred /\
+  lane16_idct coeffs pred <> transform_one coeffs pred.
+Proof.
+  exists idct_block_2300, (repeat 128 16).
+  split; [reflexivity|]. split; [unfold idct_block_2300, int16; cbn [repeat]; forall_lia|].
+  split; [unfold byte; cbn [repeat]; forall_lia|].
+  destruct lane16_idct_differs_witness as [-> ->]. discriminate.
+Qed.
+
+(** * Linear butterflies (inverse and forward WHT): every lane operation is a
+    wrapping add/sub, so the lanes hold [wrap16] of the exact values throughout;
+    only the final arithmetic shift needs the exact value. *)
+Section Linear.
+  Variables (lb b : Q -> Q).
+  Hypothesis Hlin : forall x0 x1 x2 x3,
+    lb (mapQ wrap16 (x0, x1, x2, x3)) = mapQ wrap16 (b (x0, x1, x2, x3)).
+
+  Lemma lin_int16 q : forallQ int16 q -> lb q = mapQ wrap16 (b q).
+  Proof.
+    destruct q as [[[x0 x1] x2] x3]. cbn [forallQ]. intros (H0 & H1 & H2 & H3).
+    rewrite <- Hlin. cbn [mapQ]. now rewrite !wrap16_id by assumption.
+  Qed.
+
+  Lemma lin_shift q n : 0 <= n -> forallQ int16 (b q) ->
+    mapQ (fun x => sra16 x n) (lb (mapQ wrap16 q)) = mapQ (fun x => wrap16 (x / 2 ^ n)) (b q).
+  Proof.
+    intros Hn. destruct q as [[[x0 x1] x2] x3]. rewrite Hlin.
+    destruct (b (x0, x1, x2, x3)) as [[[s0 s1] s2] s3]. cbn [forallQ mapQ].
+    intros (S0 & S1 & S2 & S3). rewrite !wrap16_id by assumption. unfold sra16.
+    assert (Hp : 1 <= 2 ^ n) by (pose proof (Z.pow_pos_nonneg 2 n ltac:(lia) Hn); lia).
+    assert (K : forall s, int16 s -> wrap16 (s / 2 ^ n) = s / 2 ^ n).
+    { intros s Hs. apply wrap16_id. unfold int16 in *. split.
+      - apply Z.div_le_lower_bound; nia.
+      - apply Z.div_le_upper_bound; nia. }
+    now rewrite !K by assumption.
+  Qed.
+End Linear.
+
+Lemma l_wht_b_lin x0 x1 x2 x3 :
+  l_wht_b (mapQ wrap16 (x0, x1, x2, x3)) = mapQ wrap16 (wht_b (x0, x1, x2, x3)).
+Proof. unfold l_wht_b, wht_b, mapQ. cbv zeta. repeat (rewrite ?add16_wrap, ?sub16_wrap). reflexivity. Qed.
+
+Lemma l_fwht_b_lin x0 x1 x2 x3 :
+  l_fwht_b (mapQ wrap16 (x0, x1, x2, x3)) = mapQ wrap16 (fwht_b (x0, x1, x2, x3)).
+Proof. unfold l_fwht_b, fwht_b, mapQ. cbv zeta. repeat (rewrite ?add16_wrap, ?sub16_wrap). reflexivity. Qed.
+
+Lemma l_bias0_wrap k q : l_bias0 k (mapQ wrap16 q) = mapQ wrap16 (bias0 k q) .
+Proof.
+  destruct q as [[[x0 x1] x2] x3]. cbn [l_bias0 bias0 mapQ]. unfold add16. now rewrite wrap16_add_l.
+Qed.
+
+(** ** Inverse WHT *)
+Lemma l_iwht_core_eq m : forallM int16 m -> iwht_fits16 m -> l_iwht_core m = iwht_core m.
+Proof.
+  intros Hm Hf. unfold l_iwht_core, iwht_core, two_pass.
+  rewrite (mapM_ext_cols l_wht_b (fun q => mapQ wrap16 (wht_b q)) int16 m (lin_int16 _ _ l_wht_b_lin) Hm).
+  rewrite <- (mapM_mapM (mapQ wrap16) wht_b), transpose_mapM_mapQ.
+  unfold iwht_fits16 in Hf.
+  destruct (transpose (mapM wht_b (transpose m))) as [[[r0 r1] r2] r3].
+  cbn [mapM forallM] in *. destruct Hf as (F0 & F1 & F2 & F3).
+  rewrite !l_bias0_wrap.
+  rewrite (lin_shift _ _ l_wht_b_lin (bias0 3 r0) 3), (lin_shift _ _ l_wht_b_lin (bias0 3 r1) 3),
+          (lin_shift _ _ l_wht_b_lin (bias0 3 r2) 3), (lin_shift _ _ l_wht_b_lin (bias0 3 r3) 3) by (assumption || lia).
+  reflexivity.
+Qed.
+
+Lemma wht_b_box B x0 x1 x2 x3 : in_box B x0 -> in_box B x1 -> in_box B x2 -> in_box B x3 ->
+  forallQ (in_box (4 * B)) (wht_b (x0, x1, x2, x3)).
+Proof. unfold in_box, wht_b, forallQ. cbv zeta. lia. Qed.
+
+Lemma iwht_fits16_box m : forallM (in_box kWhtBox) m -> iwht_fits16 m.
+Proof.
+  destruct m as [[[[[[a0 a1] a2] a3] [[[b0 b1] b2] b3]] [[[c0 c1] c2] c3]] [[[d0 d1] d2] d3]].
+  unfold kWhtBox. cbn [forallM forallQ].
+  intros ((A0 & A1 & A2 & A3) & (B0 & B1 & B2 & B3) & (C0 & C1 & C2 & C3) & (D0 & D1 & D2 & D3)).
+  unfold iwht_fits16. cbn [transpose mapM].
+  pose proof (wht_b_box _ _ _ _ _ A0 B0 C0 D0) as K0.
+  pose proof (wht_b_box _ _ _ _ _ A1 B1 C1 D1) as K1.
+  pose proof (wht_b_box _ _ _ _ _ A2 B2 C2 D2) as K2.
+  pose proof (wht_b_box _ _ _ _ _ A3 B3 C3 D3) as K3.
+  destruct (wht_b (a0, b0, c0, d0)) as [[[u0 u1] u2] u3].
+  destruct (wht_b (a1, b1, c1, d1)) as [[[v0 v1] v2] v3].
+  destruct (wht_b (a2, b2, c2, d2)) as [[[w0 w1] w2] w3].
+  destruct (wht_b (a3, b3, c3, d3)) as [[[z0 z1] z2] z3].
+  cbn [forallQ transpose mapM forallM bias0] in *.
+  unfold in_box, wht_b, int16 in *. cbv zeta. cbn [forallQ]. lia.
+Qed.
+
+Theorem lane16_wht_eq : forall coeffs, in_range_wht coeffs -> lane16_wht coeffs = transform_wht coeffs.
+Proof.
+  intros coeffs Hr. unfold lane16_wht, transform_wht.
+  destruct (blk16_cases coeffs) as [[c Hc]|Hc]; rewrite Hc; [|reflexivity]. cbn [bind]. do 2 f_equal.
+  assert (Hbox : forallM (in_box kWhtBox) c) by (apply (blk16_Forall _ _ _ Hc); exact Hr).
+  apply l_iwht_core_eq; [|apply iwht_fits16_box, Hbox].
+  apply (forallM_impl (in_box kWhtBox) int16); [|exact Hbox].
+  unfold in_box, kWhtBox, int16. intros x Hx. lia.
+Qed.
+
+Example lane16_wht_eq_applies :
+  in_range_wht [2047; -2047; 5; 0; 1; 2; 3; 4; -2047; 2047; 100; -100; 7; 8; 9; 2047] /\
+  lane16_wht (repeat 2047 16) = Ok [4094; 0; 0; 0; 0; 0; 0; 0; 0; 0; 0; 0; 0; 0; 0; 0].
+Proof. split; [unfold in_range_wht, kWhtBox; forall_lia|vm_compute; reflexivity]. Qed.
+
+(** At |c| = 2048 the sum of sixteen coefficients plus the rounding 3 is 32771:
+    the lane wraps, the block DC comes out as -4096 instead of 4096. *)
+Theorem lane16_wht_differs_refuted : exists coeffs,
+  length coeffs = 16%nat /\ Forall (fun c => - (kWhtBox + 1) <= c <= kWhtBox + 1) coeffs /\
+  lane16_wht coeffs = Ok [-4096; 0; 0; 0; 0; 0; 0; 0; 0; 0; 0; 0; 0; 0; 0; 0] /\
+  transform_wht coeffs = Ok [4096; 0; 0; 0; 0; 0; 0; 0; 0; 0; 0; 0; 0; 0; 0; 0].
+Proof.
+  exists (repeat 2048 16). split; [reflexivity|].
+  split; [unfold kWhtBox; cbn [repeat]; forall_lia|]. split; vm_compute; reflexivity.
+Qed.
+
+(** ** Forward WHT *)
+Lemma mapM_ext_rows (f g : Q -> Q) (P : Z -> Prop) m :
+  (forall q, forallQ P q -> f q = g q) -> forallM P m -> mapM f m = mapM g m.
+Proof.
+  intros Hfg. destruct m as [[[r0 r1] r2] r3]. cbn [forallM mapM]. intros (H0 & H1 & H2 & H3).
+  now rewrite !Hfg by assumption.
+Qed.
+
+Lemma l_fwht_core_eq m : forallM int16 m -> fwht_fits16 m -> l_fwht_core m = fwht_core m.
+Proof.
+  intros Hm Hf. unfold l_fwht_core, fwht_core. f_equal.
+  rewrite (mapM_ext_rows l_fwht_b (fun q => mapQ wrap16 (fwht_b q)) int16 m (lin_int16 _ _ l_fwht_b_lin) Hm).
+  rewrite <- (mapM_mapM (mapQ wrap16) fwht_b), transpose_mapM_mapQ.
+  unfold fwht_fits16 in Hf.
+  destruct (transpose (mapM fwht_b m)) as [[[r0 r1] r2] r3].
+  cbn [mapM forallM] in *. destruct Hf as (F0 & F1 & F2 & F3).
+  rewrite (lin_shift _ _ l_fwht_b_lin r0 1), (lin_shift _ _ l_fwht_b_lin r1 1),
+          (lin_shift _ _ l_fwht_b_lin r2 1), (lin_shift _ _ l_fwht_b_lin r3 1) by (assumption || lia).
+  reflexivity.
+Qed.
+
+Lemma fwht_b_box B x0 x1 x2 x3 : in_box B x0 -> in_box B x1 -> in_box B x2 -> in_box B x3 ->
+  forallQ (in_box (4 * B)) (fwht_b (x0, x1, x2, x3)).
+Proof. unfold in_box, fwht_b, forallQ. cbv zeta. lia. Qed.
+
+Lemma fwht_fits16_box m : forallM (in_box kFwhtBox) m -> fwht_fits16 m.
+Proof.
+  destruct m as [[[[[[a0 a1] a2] a3] [[[b0 b1] b2] b3]] [[[c0 c1] c2] c3]] [[[d0 d1] d2] d3]].
+  unfold kFwhtBox. cbn [forallM forallQ].
+  intros ((A0 & A1 & A2 & A3) & (B0 & B1 & B2 & B3) & (C0 & C1 & C2 & C3) & (D0 & D1 & D2 & D3)).
+  unfold fwht_fits16. cbn [mapM].
+  pose proof (fwht_b_box _ _ _ _ _ A0 A1 A2 A3) as K0.
+  pose proof (fwht_b_box _ _ _ _ _ B0 B1 B2 B3) as K1.
+  pose proof (fwht_b_box _ _ _ _ _ C0 C1 C2 C3) as K2.
+  pose proof (fwht_b_box _ _ _ _ _ D0 D1 D2 D3) as K3.
+  destruct (fwht_b (a0, a1, a2, a3)) as [[[u0 u1] u2] u3].
+  destruct (fwht_b (b0, b1, b2, b3)) as [[[v0 v1] v2] v3].
+  destruct (fwht_b (c0, c1, c2, c3)) as [[[w0 w1] w2] w3].
+  destruct (fwht_b (d0, d1, d2, d3)) as [[[z0 z1] z2] z3].
+  cbn [forallQ transpose mapM forallM] in *.
+  unfold in_box, fwht_b, int16 in *. cbv zeta. cbn [forallQ]. lia.
+Qed.
+
+Theorem lane16_fwht_eq : forall coeffs, in_range_fwht coeffs -> lane16_fwht coeffs = ftransform_wht coeffs.
+Proof.
+  intros coeffs Hr. unfold lane16_fwht, ftransform_wht.
+  destruct (blk16_cases coeffs) as [[c Hc]|Hc]; rewrite Hc; [|reflexivity]. cbn [bind]. do 2 f_equal.
+  assert (Hbox : forallM (in_box kFwhtBox) c) by (apply (blk16_Forall _ _ _ Hc); exact Hr).
+  apply l_fwht_core_eq; [|apply fwht_fits16_box, Hbox].
+  apply (forallM_impl (in_box kFwhtBox) int16); [|exact Hbox].
+  unfold in_box, kFwhtBox, int16. intros x Hx. lia.
+Qed.
+
+Theorem lane16_fwht_differs_refuted : exists coeffs,
+  length coeffs = 16%nat /\ Forall (fun c => - (kFwhtBox + 1) <= c <= kFwhtBox + 1) coeffs /\
+  lane16_fwht coeffs = Ok [-16384; 0; 0; 0; 0; 0; 0; 0; 0; 0; 0; 0; 0; 0; 0; 0] /\
+  ftransform_wht coeffs = Ok [16384; 0; 0; 0; 0; 0; 0; 0; 0; 0; 0; 0; 0; 0; 0; 0].
+Proof.
+  exists (repeat 2048 16). split; [reflexivity|].
+  split; [unfold kFwhtBox; cbn [repeat]; forall_lia|]. split; vm_compute; reflexivity.
 Qed.
